@@ -320,13 +320,8 @@ func (r *Resolver) Resolve(ctx context.Context, name string) (ResolveResult, err
 		}
 		return result, nil
 	}
-	if len(name) > 255 {
+	if !validName(name) {
 		return result, ErrInvalidName
-	}
-	for _, p := range strings.Split(name, ".") {
-		if len(p) > 63 {
-			return result, ErrInvalidName
-		}
 	}
 
 	if r.insecureUseGoResolver {
@@ -351,6 +346,11 @@ func (r *Resolver) Resolve(ctx context.Context, name string) (ResolveResult, err
 		svcbName = fmt.Sprintf("_%d._%s.%s", result.Port, scheme, name)
 	} else if scheme != "https" {
 		svcbName = fmt.Sprintf("_%s.%s", scheme, name)
+	}
+
+	// The port and scheme prefix labels count towards the size limits too.
+	if !validName(svcbName) {
+		return result, ErrInvalidName
 	}
 
 	// First, resolve HTTPS Aliases.
@@ -424,6 +424,21 @@ func (r *Resolver) Resolve(ctx context.Context, name string) (ResolveResult, err
 		result.Address = append(result.Address, v.(net.IP))
 	}
 	return result, nil
+}
+
+// validName reports whether name fits in a DNS message: RFC 1035 Section
+// 2.3.4 limits labels to 63 octets and names to 255 octets on the wire, i.e.
+// 253 characters in presentation format.
+func validName(name string) bool {
+	if len(strings.TrimSuffix(name, ".")) > 253 {
+		return false
+	}
+	for _, p := range strings.Split(name, ".") {
+		if len(p) > 63 {
+			return false
+		}
+	}
+	return true
 }
 
 func (r *Resolver) resolveTarget(ctx context.Context, name string, res *ResolveResult) error {
